@@ -188,9 +188,10 @@ func genFastAppendList(w *codewriter, rwctx *golang.ReadWriteContext, varname st
 }
 
 func genFastAppendMap(w *codewriter, rwctx *golang.ReadWriteContext, varname string, depth int) {
-	t := rwctx.Type
-	kt := t.KeyType
-	vt := t.ValueType
+	// NOTE: use the types of KeyCtx and ValCtx instead of rwctx.Type.KeyType and rwctx.Type.ValueType,
+	// the latter are nil if the map is declared through a typedef
+	kt := rwctx.KeyCtx.Type
+	vt := rwctx.ValCtx.Type
 	// map header
 	w.f("b = x.AppendMapBegin(b, %s, %s, len(%s))",
 		category2GopkgConsts[kt.Category], category2GopkgConsts[vt.Category], varname)
